@@ -189,6 +189,10 @@ def restore(c, how, res):
     """F-restore: only the serialised state survives."""
     if how == 'copy':
         return c.copy()
-    data = pickle.dumps(c)
+    if how == 'deepcopy':
+        import copy
+        return copy.deepcopy(c)
+    proto = {'pickle0': 0, 'pickle2': 2}.get(how, pickle.HIGHEST_PROTOCOL)
+    data = pickle.dumps(c, protocol=proto)
     res.count('pickled_bytes', len(data))
     return pickle.loads(data)
